@@ -1,5 +1,6 @@
 /- Model/C05Gen.lean — the C05 model instantiated with the facts the translator extracted. -/
 import PsutilModel.Model.C05
+import PsutilModel.Model.C05Dyn
 import PsutilModel.Generated.C05
 namespace Psutil.C05
 
@@ -15,6 +16,11 @@ def cfg : Cfg :=
     ppidGuarded := Gen.C05.ppidGuarded
     lowestStop := Gen.C05.lowestStop
     goneRaises := Gen.C05.goneRaises }
+
+/-- the walkers in the richer world (Model/C05Dyn.lean): the same facts plus the `except` of ppid_map() -/
+def xcfg : XCfg :=
+  { base := cfg
+    mapSkipsDenied := Gen.C05.ppidMapSkipsDenied }
 
 /-- how the two stat readers cut the line, as extracted from the current source -/
 def scfg : StatCfg :=
